@@ -136,6 +136,11 @@ def np_maximum(I, a, b):
 
 def _minmax(py, s):
     def f(x, y):
+        if isinstance(x, TS) and isinstance(y, TS):
+            # later / earlier of two instants (both naive or both zone-aware: a mixed pair raises in pandas, excluded
+            # by the harnesses); the zone tag of the first operand stands for both
+            t = s(x.t, y.t) if (is_z3(x.t) or is_z3(y.t)) else py(x.t, y.t)
+            return TS(t, x.tz)
         if not is_z3(x) and not is_z3(y):
             return py(x, y)
         return s(x, y)
@@ -1177,7 +1182,27 @@ def arr_attr(I, a, attr):
     if attr == 'unique':
         def unique(I_):
             # pandas unique(): values in order of first appearance = the elements that are not duplicates of an earlier one
-            return sym.compress(a, sym.invert(sym.duplicated_first(a, 'first')))
+            out = sym.compress(a, sym.invert(sym.duplicated_first(a, 'first')))
+            try:
+                probe = lift(a.f(z3.Int('probe!u')))
+            except Unsupported:
+                return out
+            # consequences of that definition (A2; they need induction over the array, so they are stated with it):
+            # every entry occurs in the result (at position upos), the result's entries are pairwise different and each
+            # is an entry of the array (at usrc)
+            pos = z3.Function(fresh_name('upos'), z3.IntSort(), z3.IntSort())
+            src = z3.Function(fresh_name('usrc'), z3.IntSort(), z3.IntSort())
+            i, k1, k2 = z3.Int(fresh_name('ui')), z3.Int(fresh_name('uk')), z3.Int(fresh_name('ul'))
+            n, m = lift(a.n), lift(out.n)
+            uf = z3.Function(fresh_name('uval'), z3.IntSort(), probe.sort())
+            I.assume(z3.ForAll([k1], z3.Implies(z3.And(k1 >= 0, k1 < m), uf(k1) == lift(out.f(k1))), patterns=[uf(k1)]))
+            I.assume(z3.ForAll([i], z3.Implies(z3.And(i >= 0, i < n), z3.And(pos(i) >= 0, pos(i) < m, uf(pos(i)) == lift(a.f(i)))), patterns=[pos(i)]))
+            I.assume(z3.ForAll([k1, k2], z3.Implies(z3.And(k1 >= 0, k1 < k2, k2 < m), uf(k1) != uf(k2)), patterns=[z3.MultiPattern(uf(k1), uf(k2))]))
+            I.assume(z3.ForAll([k1], z3.Implies(z3.And(k1 >= 0, k1 < m), z3.And(src(k1) >= 0, src(k1) < n, lift(a.f(src(k1))) == uf(k1), pos(src(k1)) == k1)), patterns=[src(k1)]))
+            res = Arr(out.n, lambda k, uf=uf: uf(lift(k)), kind=out.kind)
+            res.comp = out.comp
+            res.upos, res.usrc, res.uval = pos, src, uf
+            return res
         return unique
     if attr == 'tz':
         return getattr(a, 'tz', None)
